@@ -38,6 +38,32 @@ POOL = {
     "while_and_import_and_break": "import string\ni = 0\nwhile True:\n    i += 1\n    if i > 2:\n        break\nfor c in string.digits:\n    if c == '3':\n        break\nprint(i, c)\n",
 }
 
+# one small 3.8-valid program per version-sensitive construct (always run by C15 on every host x
+# configuration x runtime, so their detection does not depend on what the generator happens to draw)
+VERSION_SENSITIVE = {
+    "vs_field_tab_literal": "x = 1\nprint(f'{len(\"\t\")}|{x}')\n",
+    "vs_field_latin1_literal": "x = 1\nprint(f'{len(\"é\")}|{x}', f'{\"ü\" * 2}')\n",
+    "vs_field_other_quote": "d = {'k': 1}\nprint(f\"{d['k']}|{d.get('z', 0)}\")\n",
+    "vs_spec_tab_fill": "x = 5\nprint(f'{x:\t>4}|{x:é<3}|{x:{chr(48)}>3}')\n",
+    "vs_literal_escapes": "x = 5\nprint(f'a\\tb{x}\\n\\\\{x!r}é\\x00')\n",
+    "vs_nested_fstring": "x, w = 5, 4\nprint(f'{f\"{x:>{w}}\"!r:>8}|{x}')\n",
+    "vs_walrus_index": "l = [1, 2, 3]\nv = 0\nprint(l[(v := 1)], v)\n",
+    "vs_walrus_set": "v = 0\nprint(len({(v := 2), 0}), v, {(w := 1) for _ in range(1)}, w)\n",
+    "vs_walrus_call_args": "def f(a, b=0):\n    return a + b\nprint(f((y := 3)), f(1, b=(z := 2)), y, z)\n",
+    "vs_walrus_comp": "print([(q := e * 2) for e in range(3)], q, [e for e in range(4) if (r := e) % 2], r)\n",
+    "vs_star_index": "d = {(0, 1): 7}\np = (0,)\nprint(d[(*p, 1)])\n",
+    "vs_star_return_tuple": "def f(a):\n    return (*a, 1)\nprint(f([3]), [*range(2), *'ab'], {**{'k': 1}, 'j': 2})\n",
+    "vs_posonly": "def f(a, b=2, /, c=3, *, d=4):\n    return (a, b, c, d)\ng = lambda x, y=1, /, z=2: (x, y, z)\nprint(f(1), f(1, 5, d=0), g(0), g(1, 2, z=3))\n",
+    "vs_lambda_default_walrus": "g = lambda a=(w := 5), *, k=(v := 6): (a, k)\nprint(g(), w, v)\n",
+    "vs_class_comp": "class K:\n    xs = [1, 2]\n    ys = [e * 2 for e in xs]\n    zs = {e: 0 for e in xs}\nprint(K.ys, K.zs)\n",
+    "vs_dict_comp_global_in_class": "G = 3\nclass K:\n    d = {e: G for e in range(2)}\n    s = {G + e for e in range(2)}\n    g = list(G * e for e in range(2))\nprint(K.d, sorted(K.s), K.g)\n",
+    "vs_decorated_lambda_kwonly": "def deco(f):\n    return lambda *a, **k: ('d', f(*a, **k))\n@deco\ndef h(*, k=1):\n    return k\nprint(h(), h(k=2))\n",
+    "vs_unparenthesised_tuple_contexts": "def f():\n    x = 1, 2\n    for a, b in [(1, 2)]:\n        pass\n    return x, a, b\nprint(f())\n",
+    "vs_conditional_lambda": "f = lambda: (lambda: 1 if 0 else 2)()\nprint(f(), (lambda: (yield_ := 3))())\n",
+    "vs_eq_specifier": "x = 3\nprint(f'{x=}', f'{x + 1 = }', f'{x=!r:>4}')\n",
+    "vs_bytes_and_numbers": "print(b'a\\x00b', 1e309, -1e309 < 0, 1_000, 0x1f, 1j * 1j, 10 ** 30)\n",
+}
+
 # parses, but conversion fails half-way (an unsupported statement deep inside), leaving
 # whatever partial state the converter keeps
 REJECTED = {
